@@ -1,3 +1,3 @@
 """Import every profile/op module so that the registries are complete."""
 from . import ops_own, ops_se, ops_index, ops_misc, ops_aux, persist, peer  # noqa
-from . import profiles, profile_c12  # noqa
+from . import profiles, profile_c12, profile_c17, profile_c18  # noqa
